@@ -103,8 +103,8 @@ def native_trial(world, con, inst, native, sizes=None, model=None, seed=0):
 
 
 def size_grid(size_names, max_total=40, span=3):
-    names = [n for n, _ in size_names]
-    ranges = [range(lo, lo + span) for _, lo in size_names]
+    names = [n for n, *_ in size_names]
+    ranges = [range(lo, (lo + span) if hi is None else min(hi + 1, lo + span + 3)) for _, lo, hi in size_names]
     combos = sorted(itertools.product(*ranges), key=lambda c: (sum(c), c))
     return [dict(zip(names, c)) for c in combos[:max_total]]
 
@@ -152,7 +152,9 @@ def run_instance(cid, inst_index, tier, seed=0, repo_src=None, native_trials=0, 
     for pi, ctx in enumerate(ctxs):
         trusted |= ctx.trusted
         # vacuity guard: hypotheses at the end of the path must not be contradictory
-        vac = vc.discharge(ctx.hyps, z3.BoolVal(False), timeout_ms=3000, portfolio=False)
+        # (the arbitrary index tuples of `k.indices` range over possibly empty boxes: excluded)
+        nh = ctx.memo.get("first_index_hyp", len(ctx.hyps))
+        vac = vc.discharge(ctx.hyps[:nh], z3.BoolVal(False), timeout_ms=3000, portfolio=False)
         if vac.status == "proved":
             res["checker_errors"].append({"where": f"{cid}[{label}] path {pi}", "trace": "vacuous: hypotheses of the path are contradictory"})
             continue
